@@ -9,22 +9,45 @@ any loop passes with any ready list the kernel may hand out (`validReady`), on e
 `exec init sts = some s` says that `sts` is such an execution.  The model is the REPAIRED code
 (patches/C03-01…04); the code as found is refuted in `AsFound.lean`.
 -/
-import TboxModel.C03.Proofs
+import TboxModel.C03.OrderIndep
 import TboxModel.C03.AsFound
 namespace Tbox.C03
 
 /-- **only enabled, only ready**: every callback ever made was on an event object that was alive and
 enabled when `onEvent` was entered, one of its subscribed conditions was in the reported readiness,
-the event belongs to the descriptor whose ready entry was being served, that descriptor was still
-the same open file the kernel reported on (not a reused number), and the entry is one of the
-current pass's ready list. -/
+the event belongs to the descriptor whose ready entry was being served, and the entry is one of the
+current pass's ready list — whatever the callbacks did, closing descriptors under the feet of their
+events included. -/
 theorem C03_only_enabled_ready (sts : List Step) (s : State) (he : exec init sts = some s) :
     ∀ c, Out.cb c ∈ s.log →
-      c.aliveAt = true ∧ c.enabledAt = true ∧ c.meets = true ∧ c.evFd = c.dispFd ∧ c.instOk = true ∧
-      c.inReady = true := by
+      c.aliveAt = true ∧ c.enabledAt = true ∧ c.meets = true ∧ c.evFd = c.dispFd ∧ c.inReady = true := by
   intro c hc
   have ok : CbOk c := (exec_inv sts init init_inv s he).log _ hc
-  exact ⟨ok.alive, ok.enabled, ok.meets, ok.sameFd, ok.instOk, ok.inReady⟩
+  exact ⟨ok.alive, ok.enabled, ok.meets, ok.sameFd, ok.inReady⟩
+
+-- OPEN (false as stated, see the counterexample below): for EVERY execution, the descriptor of a callback
+-- is still the open file the kernel reported on:  ∀ c, Out.cb c ∈ s.log → c.instOk = true.
+-- The loop is not told when the application closes a descriptor; an event that is still enabled on a
+-- descriptor closed (and possibly reopened) earlier in the same pass is called with the readiness of the
+-- old file.  No repair inside the loop can know; the contract "disable or delete the events of a
+-- descriptor before closing it" is what the partial theorem assumes (ghost flag `breach`, decidable).
+
+/-- **… on the same open file** (partial: close contract kept): as long as no descriptor was closed
+while an event object still referred to it (and no descriptor number was left closed), every
+callback's descriptor was still the open file the kernel had reported on — in particular a
+descriptor number closed and reopened inside a callback never receives the old file's readiness. -/
+theorem C03_same_open_file_partial (sts : List Step) (s : State) (he : exec init sts = some s)
+    (hb : s.breach = false) : ∀ c, Out.cb c ∈ s.log → c.instOk = true :=
+  (exec_sync sts init init_inv init_sync s he hb).log
+
+/-- the full statement is false of the code (and no repair is possible inside the loop): events 0 and 1
+on descriptors 0 and 1, both ready; the callback of event 0 closes descriptor 1 and reopens the
+number while event 1 is still enabled; event 1 is then called with the old file's readiness -/
+theorem C03_same_open_file_counterexample :
+    ∃ sts s, exec init sts = some s ∧ cbsWhere s (fun c => !c.instOk) = [1] :=
+  ⟨[.newEv [.close 1], .newEv [], .api (.init 0 0 1 false), .api (.init 1 1 1 false), .api (.enable 0),
+    .api (.enable 1), .api (.setR 0 true), .api (.setR 1 true), .pass .select [(0, 1), (1, 1)]], _, rfl,
+   by decide⟩
 
 /-- **one-shot**: a one-shot event already reports disabled when its callback starts. -/
 theorem C03_oneshot_disabled_in_cb (sts : List Step) (s : State) (he : exec init sts = some s) :
@@ -39,23 +62,53 @@ theorem C03_no_stale_access (sts : List Step) (s : State) (he : exec init sts = 
 
 /-- **counters and kernel interest are exact** in every reachable state: reference count = number
 of event objects initialised on the descriptor, the subscriber vector is exactly the enabled ones
-(no duplicates), each per-condition counter = number of subscribers with that condition, the kernel's
-epoll interest = the mask recomputed from the counters; a descriptor without record is not
-registered. -/
+(no duplicates), each per-condition counter = number of subscribers with that condition, the mask
+cached for epoll = the mask recomputed from the counters, and the kernel has the descriptor
+registered with exactly that mask or not at all (the latter only after a close behind the loop's
+back or on a closed number: with the close contract kept the kernel interest is exactly the mask); a
+descriptor without record is not registered. -/
 theorem C03_counts_match (sts : List Step) (s : State) (he : exec init sts = some s) (f : Nat) :
     (∀ r, s.recs f = some r →
       r.ref = r.holders.length ∧ (∀ e, e ∈ r.holders ↔ Holds s f e) ∧ 0 < r.ref ∧
       r.subs.Nodup ∧ (∀ e, e ∈ r.subs ↔ Subd s f e) ∧
-      r.rd = cnt s 1 r.subs ∧ r.wr = cnt s 2 r.subs ∧ r.ex = cnt s 4 r.subs ∧ s.kern f = maskOf r) ∧
+      r.rd = cnt s 1 r.subs ∧ r.wr = cnt s 2 r.subs ∧ r.ex = cnt s 4 r.subs ∧ r.kev = maskOf r ∧
+      (s.kern f = maskOf r ∨ s.kern f = 0) ∧ (s.breach = false → s.kern f = maskOf r)) ∧
     (s.recs f = none → s.kern f = 0) := by
   have h := exec_inv sts init init_inv s he
   refine ⟨fun r hr => ?_, fun hn => (h.norec f hn).1⟩
   have ok := h.recs f r hr
-  refine ⟨ok.ref_eq, ok.h_iff, ?_, ok.s_nodup, ok.s_iff, ok.rd, ok.wr, ok.ex, ok.kern.trans ok.kev⟩
-  rw [ok.ref_eq]
-  cases hh : r.holders with
-  | nil => exact absurd hh ok.h_ne
-  | cons a l => simp
+  refine ⟨ok.ref_eq, ok.h_iff, ?_, ok.s_nodup, ok.s_iff, ok.rd, ok.wr, ok.ex, ok.kev, ?_, ?_⟩
+  · rw [ok.ref_eq]
+    cases hh : r.holders with
+    | nil => exact absurd hh ok.h_ne
+    | cons a l => simp
+  · rw [← ok.kev]; exact ok.kor
+  · intro hb
+    rw [← ok.kev]
+    exact ((exec_sync sts init init_inv init_sync s he hb).recs f r hr).1
+
+/-- **EBADF is safe and does not spin**: the pass in which `select` failed with EBADF keeps the
+invariant, raises nothing, and afterwards none of the closed descriptors it looked at has a
+subscriber left, so the next `select` does not fail on them again. -/
+theorem C03_badf_pass_safe (sts : List Step) (s : State) (he : exec init sts = some s) (fds : List Nat) :
+    Inv (removeInvalid s fds) ∧ (∀ b, Out.bad b ∉ (removeInvalid s fds).log) ∧
+    badfTrigger (removeInvalid s fds) fds = false := by
+  have h0 := exec_inv sts init init_inv s he
+  have h := removeInvalid_inv fds s h0
+  refine ⟨h, fun _ hb => h.log _ hb, ?_⟩
+  unfold badfTrigger
+  rw [List.any_eq_false]
+  intro f hf
+  have hc := removeInvalid_clears fds s h0 f (Or.inl hf)
+  have hi : interest .select (removeInvalid s fds) f = 0 := by
+    unfold interest
+    cases hr : (removeInvalid s fds).recs f with
+    | none => rfl
+    | some r =>
+      have ok := h.recs f r hr
+      have hs : r.subs = [] := List.eq_nil_iff_forall_not_mem.2 (fun x hx => hc x ((ok.s_iff x).1 hx))
+      exact maskOf_zero (by rw [ok.rd, hs]; rfl) (by rw [ok.wr, hs]; rfl) (by rw [ok.ex, hs]; rfl)
+  simp [hi]
 
 /-- the harness's way of deciding whether a descriptor may be closed (no event object refers to it)
 is the model's (no shared record) -/
@@ -74,18 +127,12 @@ theorem C03_close_contract (s : State) (h : Inv s) (f : Nat) :
 
 /-- both back-ends watch the same conditions: the epoll interest table equals what select
 recomputes from the counters -/
-theorem C03_interest_agree (s : State) (h : Inv s) (f : Nat) : interest .epoll s f = interest .select s f := by
+theorem C03_interest_agree (s : State) (h : Inv s) (S : Sync s) (f : Nat) :
+    interest .epoll s f = interest .select s f := by
   unfold interest
   cases hr : s.recs f with
   | none => exact (h.norec f hr).1
-  | some r => exact ((h.recs f r hr).kern).trans (h.recs f r hr).kev
-
-def cbKeys (s : State) : List (Nat × Nat) :=
-  s.log.filterMap fun o => match o with | .cb c => some (c.e, c.m) | _ => none
-
-/-- the outcome of a pass does not depend on the order in which ready descriptors are served -/
-def OrderIndep (s : State) (r : List (Nat × Nat)) : Prop :=
-  ∀ r', r'.Perm r → (cbKeys (pass s r')).Perm (cbKeys (pass s r))
+  | some r => exact ((S.recs f r hr).1).trans (h.recs f r hr).kev
 
 theorem nodup_of_map_fst {l : List (Nat × Nat)} (h : (l.map (·.1)).Nodup) : l.Nodup :=
   List.Pairwise.of_map (·.1) (fun _ _ hne heq => hne (by rw [heq])) h
@@ -100,7 +147,7 @@ theorem validReady_unpack {be : Backend} {s : State} {r : List (Nat × Nat)} (h 
 a pass of the select back-end (ascending descriptor order) and a pass of the epoll back-end (kernel
 order) deliver the same callbacks (as a multiset of (event, readiness mask)), for every scenario whose
 outcome does not depend on the serving order. -/
-theorem C03_backends_agree (s : State) (h : Inv s) (rE rS : List (Nat × Nat))
+theorem C03_backends_agree (s : State) (h : Inv s) (S : Sync s) (rE rS : List (Nat × Nat))
     (hE : validReady .epoll s rE = true) (hS : validReady .select s rS = true)
     (hsame : ∀ f, f ∈ rE.map (·.1) ↔ f ∈ rS.map (·.1)) (hind : OrderIndep s rE) :
     (cbKeys (pass s rS)).Perm (cbKeys (pass s rE)) := by
@@ -115,15 +162,33 @@ theorem C03_backends_agree (s : State) (h : Inv s) (rE rS : List (Nat × Nat))
     obtain ⟨fm', hm', hfe⟩ := List.mem_map.1 ((hsame fm.1).2 hf)
     have : fm' = fm := by
       apply Prod.ext hfe
-      rw [mE fm' hm', mS fm hm, C03_interest_agree s h, hfe]
+      rw [mE fm' hm', mS fm hm, C03_interest_agree s h S, hfe]
     rw [← this]; exact hm'
   · intro hm
     have hf : fm.1 ∈ rE.map (·.1) := List.mem_map.2 ⟨fm, hm, rfl⟩
     obtain ⟨fm', hm', hfe⟩ := List.mem_map.1 ((hsame fm.1).1 hf)
     have : fm' = fm := by
       apply Prod.ext hfe
-      rw [mS fm' hm', mE fm hm, C03_interest_agree s h, hfe]
+      rw [mS fm' hm', mE fm hm, C03_interest_agree s h S, hfe]
     rw [← this]; exact hm'
+
+/-- **a decidable criterion for order independence**: if the ready descriptors are distinct and the
+scripts of all their subscribers are local (enable/disable events of the same descriptor, change
+readiness through a peer; nothing is (re-)initialised, destroyed or closed), then every serving order of
+the ready list yields the same callbacks. -/
+theorem C03_order_indep_syn (sts : List Step) (s : State) (he : exec init sts = some s) (r : List (Nat × Nat))
+    (hs : OrderIndepSyn s r = true) : OrderIndep s r :=
+  orderIndepSyn_sound s (exec_inv sts init init_inv s he) r hs
+
+/-- **back-ends agree, decidable premise**: in a reachable state with the close contract kept, for a
+pass that satisfies the syntactic criterion, the select back-end (ascending order) and the epoll
+back-end (kernel order) deliver the same callbacks. -/
+theorem C03_backends_agree_syn (sts : List Step) (s : State) (he : exec init sts = some s) (hb : s.breach = false)
+    (rE rS : List (Nat × Nat)) (hE : validReady .epoll s rE = true) (hS : validReady .select s rS = true)
+    (hsame : ∀ f, f ∈ rE.map (·.1) ↔ f ∈ rS.map (·.1)) (hsyn : OrderIndepSyn s rE = true) :
+    (cbKeys (pass s rS)).Perm (cbKeys (pass s rE)) :=
+  C03_backends_agree s (exec_inv sts init init_inv s he) (exec_sync sts init init_inv init_sync s he hb) rE rS hE hS
+    hsame (C03_order_indep_syn sts s he rE hsyn)
 
 /-! ### non-vacuity: concrete executions that satisfy the hypotheses -/
 
@@ -158,7 +223,10 @@ example : validReady .select quiet [(0, 1), (1, 3)] = true ∧ validReady .epoll
 example : cbKeys (pass (twoFds []) [(0, 1), (1, 1)]) = [(0, 1)] ∧
     cbKeys (pass (twoFds []) [(1, 1), (0, 1)]) = [(0, 1), (1, 1)] := by decide
 
--- OPEN (not attempted): a syntactic, decidable sufficient condition for `OrderIndep` (e.g. every script of a
--- subscriber of a ready descriptor only touches events of its own descriptor) with a commutation proof.
+/-- the criterion holds for `quiet` and fails as soon as a callback destroys an event of another descriptor -/
+example : OrderIndepSyn quiet [(1, 3), (0, 1)] = true ∧ OrderIndepSyn (twoFds []) [(0, 1), (1, 1)] = false := by decide
+
+-- OPEN (not attempted): a wider criterion that also admits initialize/destroy/close confined to one ready
+-- descriptor's own events and numbers (needs an equivalence up to creation stamps and pool blocks).
 
 end Tbox.C03
